@@ -63,19 +63,19 @@ func resetScenario(c *caseOut, h *History, cfg config.Blockchain, sr *subjectRun
 		rec := NewRecStore(materialise(db))
 		bc2, err := openNode(rec, cfg)
 		if err != nil {
-			c.fail("reset-resume-reopen-"+stageOf(bs[k-1])+"-"+slug(err), "crash after reset batch %d of %d (%s): reopening failed: %v", k-b0, len(bs)-b0, stageOf(bs[k-1]), err)
+			c.fail("reset-resume-reopen-"+stageOfDB(db)+"-"+slug(err), "crash after reset batch %d of %d (%s): reopening failed: %v", k-b0, len(bs)-b0, stageOfDB(db), err)
 			continue
 		}
-		c.cnt.count("reset:resumed-from-" + stageOf(bs[k-1]))
+		c.cnt.count("reset:resumed-from-" + stageOfDB(db))
 		fin := copyDB(db)
 		for _, b := range rec.Batches() {
 			apply(fin, b)
 		}
 		if d := diffDB(final, fin, 6); len(d) > 0 {
-			c.fail("reset-resume-db", "crash after reset batch %d of %d (%s): the resumed reset ends in a different database than the uninterrupted one: %s", k-b0, len(bs)-b0, stageOf(bs[k-1]), strings.Join(d, " "))
+			c.fail("reset-resume-db", "crash after reset batch %d of %d (%s): the resumed reset ends in a different database than the uninterrupted one: %s", k-b0, len(bs)-b0, stageOfDB(db), strings.Join(d, " "))
 		}
 		// the node returned by the resuming NewBlockchain must be usable as it is
-		resumedNodeUsable(c, h, bc2, target, k-b0, stageOf(bs[k-1]))
+		resumedNodeUsable(c, h, bc2, target, k-b0, stageOfDB(db))
 		checkPrefix(c, h, cfg, len(bs), target, true, k, fin, skip, "reset-resumed-")
 	}
 }
@@ -93,7 +93,7 @@ func resumedNodeUsable(c *caseOut, h *History, bc *core.Blockchain, target uint3
 	}
 	for i := target + 1; i <= h.N() && i <= target+3; i++ {
 		if err := safeAddBlock(bc, h.Blocks[i-1]); err != nil {
-			c.fail("reset-resumed-node-addblock", "crash after reset batch %d (%s): the node that resumed the reset rejects block %d: %v", k, stage, i, err)
+			c.fail("reset-resumed-node-addblock-"+stage, "crash after reset batch %d (%s): the node that resumed the reset rejects block %d: %v", k, stage, i, err)
 			return
 		}
 		sr, err := bc.GetStateRoot(i)
@@ -104,16 +104,11 @@ func resumedNodeUsable(c *caseOut, h *History, bc *core.Blockchain, target uint3
 	}
 }
 
-func stageOf(b *Batch) string {
-	if b.GC {
-		return "gc"
-	}
-	v, ok := b.KV["\xc4"]
-	if !ok {
+// stageOfDB names the reset stage marker a database carries.
+func stageOfDB(db map[string][]byte) string {
+	v, ok := db["\xc4"]
+	if !ok || len(v) != 1 {
 		return "nomarker"
-	}
-	if v == nil {
-		return "done"
 	}
 	return fmt.Sprintf("stage%d", v[0]&0x7f)
 }
